@@ -36,6 +36,31 @@ CLAIMS["C07"] = dict(
     design_ref="DESIGN.md section 4, C07",
     technique="static analysis: call-graph link checking, custom_vjp protocol checking, slot-table agreement, sibling comparison over the AST")
 
+CLAIMS["C01"] = dict(
+    category="other",
+    text=("Decides, for every path of trust_region_minimize / is_converged / nonlinear_equation_solve: (D1) a True flag is "
+          "returned only behind the convergence test applied to the returned point's own gradient, the test is an upper bound "
+          "homogeneous with settings.tol, the objective's parameters are assigned before the solve and after the warm start, "
+          "and the caller gets the solver's own flag; (D2) in default mode an accepted step satisfies "
+          "objective.value(x+d) - o <= 0 (sign proof: acceptance => ratio >= c >= 0, denominator >= 0 on each path where a "
+          "ratio definition is used, numerator = -(value(x+d) - o) with o fresh, accepted point = x + that d); (D3) accepted "
+          "iterates are reported and exits return the iterate state or the reported successful point; (D4) a NaN ratio "
+          "rejects the step and shrinks the radius. Convergence on convex problems, uniqueness, and finiteness beyond D4 "
+          "are trajectory properties and are NOT decided."),
+    design_ref="DESIGN.md section 4, C01",
+    technique="static analysis: CFG dominators + reaching definitions with branch facts, sign and NaN-polarity abstract domains, homogeneity degree")
+
+CLAIMS["C05"] = dict(
+    category="other",
+    text=("As C01 for bound_constrained_trust_region_minimize (guarded success on the projected-gradient measure of the returned "
+          "point, descent sign proof, NaN polarity, parameters before solve), plus feasibility by construction: project is a "
+          "clamp on the bounds columns that solve() builds from equally scaled lower/upper bounds; project_onto_tr returns only "
+          "projections; every Cauchy step is project(.)-x; the SPG step changes only by alpha*(project_onto_tr(.)-(x+z)) with "
+          "alpha <= 1 through every line-search callee; the trial point is x + that step. alpha >= 0, brentq and optimality "
+          "for convex problems are NOT decided."),
+    design_ref="DESIGN.md section 4, C05",
+    technique="static analysis: guarded-return/dominator rules, sign proof, feasibility-provenance dataflow over reaching definitions, interprocedural bound on step length")
+
 NA = {}
 
 
